@@ -17,4 +17,14 @@ def jobs(tier, ctx):
                   unwind=104, targets=['copy_chars'], timeout=1500, mem_gb=10,
                   desc='copy_chars(b0..b%d) in one call vs byte-by-byte from the same arbitrary state: same output, state and side calls' % (nb - 1),
                   inputs='state, sb_pos, iflags, sb_buf[100], %d input bytes' % nb))
+    ne = 4 if tier == 'quick' else 6
+    J.append(dict(name='line_edit.n%d' % ne, srcs=['@harness/C13/line_edit.c'], stubs=['@harness/C13/stubs_decoder.c'] + BASE, cuts=CUTS, defs=['NB=%d' % ne], unwind=ne + 3,
+                  targets=['telnet_neg'], timeout=300, mem_gb=6, opt_witness=['erased_inside_line', 'erase_on_empty_line'],
+                  desc='telnet_neg on every line of <= %d bytes: backspace/delete semantics vs a reference, no write before the output buffer' % ne,
+                  inputs='%d line bytes' % ne, assumptions=[]))
+    for (pn, pv) in (('telnet', 'PORT_TELNET'), ('ascii', 'PORT_ASCII')):
+        J.append(dict(name='reader_budget.' + pn, srcs=['@harness/C13/reader_budget.c'], stubs=['@harness/C13/stubs_decoder.c'] + BASE, cuts=CUTS, defs=['PORT=' + pv], unwind=4, nobody_ok=['*'],
+                      targets=['get_user_data'], timeout=300, mem_gb=8, opt_witness=['overlong_line_discarded', 'socket_read_requested'],
+                      desc='get_user_data (%s port) for every buffer position 0 <= text_start <= text_end < MAX_TEXT: the read it requests fits behind text_end (x3 for telnet expansion), over-long data is discarded, never overflowed' % pn,
+                      inputs='text_start, text_end over the whole buffer', assumptions=['compaction memmove replaced by a size check (contents not the subject)', 'the socket read itself returns EWOULDBLOCK (the decoder is decided by decoder_step)']))
     return J
